@@ -18,12 +18,23 @@ import time
 
 from sim import dtgen, kernel
 
-from frappy.core import Command, Drivable, Limit, Module, Parameter, Readable, Writable
+from frappy.core import Command, Drivable, Feature, Limit, Module, Parameter, Readable, Writable
 from frappy.datatypes import FloatRange
 from frappy.errors import CommunicationFailedError, HardwareError, RangeError, \
     SilentCommunicationFailedError
 
 BASES = {'Module': Module, 'Readable': Readable, 'Writable': Writable, 'Drivable': Drivable}
+
+
+class HasGenA(Feature):
+    """generated feature (a mixin with Feature as direct base class is reported in the module property 'features')"""
+
+
+class HasGenB(Feature):
+    """another generated feature"""
+
+
+FEATURES = {'HasGenA': HasGenA, 'HasGenB': HasGenB}
 NUMERIC = ('double', 'int', 'scaled')
 
 
@@ -176,7 +187,7 @@ def _wire_args(di, argument):
         return f'<unexportable {argument!r}: {e!r}>'
 
 
-def make_class(spec, drv, tag=''):
+def make_class(spec, drv, tag='', parent=None):
     ns = {'__module__': __name__}
     late_ns = {}
     base = BASES[spec.get('base', 'Module')]
@@ -286,7 +297,9 @@ def make_class(spec, drv, tag=''):
             drv.reg[mname, 'cmd:' + cname] = dtgen.to_internal(c['result'], c['result_value'])
     if 'enablePoll' in spec:
         ns['enablePoll'] = spec['enablePoll']
-    cls = type(f'Gen_{mname}{tag}', (base,), ns)
+    # 'features': feature mixins; <parent>: the class of another generated module this one is derived from
+    bases = tuple(FEATURES[f] for f in spec.get('features', ())) + (parent or base,)
+    cls = type(f'Gen_{mname}{tag}', bases, ns)
     if late_ns:
         late_ns['__module__'] = __name__
         cls = type(f'Gen_{mname}{tag}_sub', (cls,), late_ns)
